@@ -1169,7 +1169,7 @@ func findInjectorBuild(info *types.Info, fn *ast.FuncDecl) (*ast.CallExpr, error
 func isWireImport(path string) bool {
 	// TODO(light): This is depending on details of the current loader.
 	const vendorPart = "vendor/"
-	if i := strings.LastIndex(path, vendorPart); i != -1 && (i == 0 || path[i-1] == '/') {
+	if i := strings.LastIndex("/"+path, "/"+vendorPart); i != -1 {
 		path = path[i+len(vendorPart):]
 	}
 	return path == "github.com/google/wire"
